@@ -27,7 +27,22 @@ def is_conc_int(e):
     return z3.is_int_value(e)
 
 
+def _has_nth(e, seen=None):
+    seen = seen if seen is not None else set()
+    if e.get_id() in seen:
+        return False
+    seen.add(e.get_id())
+    if z3.is_app(e):
+        if e.decl().kind() == z3.Z3_OP_SEQ_NTH:
+            return True
+        return any(_has_nth(c, seen) for c in e.children())
+    return False
+
+
 def simp(e):
+    # z3.simplify expands seq.nth into nth_i / nth_u case splits, which hurts the sequence solver: leave such terms alone
+    if _has_nth(e):
+        return e
     return z3.simplify(e)
 
 
@@ -169,8 +184,10 @@ def bit_axioms(terms):
                 b, k = e.arg(0), e.arg(1)
                 out.append(z3.Implies(k >= 0, e == b * pow2_f(k)))
                 out.append(z3.Implies(k >= 0, pow2_f(k) >= 1))
+                out.append(z3.Implies(z3.And(k >= 0, b >= 0), e >= 0))
             if d.eq(bor_f):
                 a, s = e.arg(0), e.arg(1)
+                out.append(z3.Implies(z3.And(a >= 0, s >= 0), e >= 0))
                 for x, y in ((a, s), (s, a)):
                     if z3.is_app(y) and y.decl().eq(shl_f):
                         b, k = y.arg(0), y.arg(1)
